@@ -310,28 +310,41 @@ Proof.
 Qed.
 
 (* ---------- the network side ---------- *)
-Definition MokAt {A} (m : M A) (n : net) : Prop :=
-  safe (fst (m n)) /\ (length (n_udp (snd (m n))) <= length (n_udp n))%nat
-  /\ exists evs, n_trace (snd (m n)) = evs ++ n_trace n.
-Lemma Forall_QT evs : Forall QT evs.
-Proof. induction evs; constructor; [exact I|assumption]. Qed.
-Lemma MokT_of_at {A} (m : M A) : (forall n, MokAt m n) -> MokT m.
-Proof. intros H n. destruct (H n) as [H1 [H2 [evs H3]]]. split; [exact H1|split; [exact H2|exists evs; split; [exact H3|apply Forall_QT]]]. Qed.
-Lemma MokAt_of {A} (m : M A) n : MokT m -> MokAt m n.
-Proof. intros H. destruct (H n) as [H1 [H2 [evs [H3 _]]]]. split; [exact H1|split; [exact H2|exists evs; exact H3]]. Qed.
-Lemma MokAt_bind {A B} (m : M A) (f : A -> M B) n :
-  MokAt m n -> (forall a n', m n = (Ok a, n') -> MokAt (f a) n') -> MokAt (mbind m f) n.
-Proof.
-  intros [H1 [H2 [evs H3]]] Hf. unfold MokAt, mbind.
-  destruct (m n) as [[a|e| | |] n1]; cbn [fst snd] in *; try contradiction.
-  - destruct (Hf a n1 eq_refl) as [G1 [G2 [evs2 G3]]]. split; [exact G1|split; [lia|]].
-    exists (evs2 ++ evs). rewrite G3, H3, app_assoc. reflexivity.
-  - split; [exact I|split; [exact H2|exists evs; exact H3]].
-Qed.
-Lemma MokAt_fail {A} e n : MokAt (@mfail A e) n.
-Proof. apply MokAt_of, Mok_fail. Qed.
-Lemma MokAt_ret {A} (a : A) n : MokAt (mret a) n.
-Proof. apply MokAt_of, Mok_ret. Qed.
+(* what a query of a one-socket UDP protocol may write to the trace: requests of the protocol's
+   language to the query's port, receives, the socket and its timeouts - no reservation, no TCP *)
+Definition Qreq (port : N) (reqs : bytes -> Prop) (e : tev) : Prop :=
+  match e with
+  | SendEv p d => p = port /\ reqs d
+  | Reserve _ => False
+  | NewTcp _ _ => False
+  | _ => True
+  end.
+Lemma Qreq_QT port reqs e : Qreq port reqs e -> QT e.
+Proof. intros _. exact I. Qed.
+
+Section At.
+  Variable Q : tev -> Prop.
+  Definition MokAt {A} (m : M A) (n : net) : Prop :=
+    safe (fst (m n)) /\ (length (n_udp (snd (m n))) <= length (n_udp n))%nat
+    /\ exists evs, n_trace (snd (m n)) = evs ++ n_trace n /\ Forall Q evs.
+  Lemma Mok_of_at {A} (m : M A) : (forall n, MokAt m n) -> Mok Q m.
+  Proof. intros H n. exact (H n). Qed.
+  Lemma MokAt_of {A} (m : M A) n : Mok Q m -> MokAt m n.
+  Proof. intros H. exact (H n). Qed.
+  Lemma MokAt_bind {A B} (m : M A) (f : A -> M B) n :
+    MokAt m n -> (forall a n', m n = (Ok a, n') -> MokAt (f a) n') -> MokAt (mbind m f) n.
+  Proof.
+    intros [H1 [H2 [evs [H3 H4]]]] Hf. unfold MokAt, mbind.
+    destruct (m n) as [[a|e| | |] n1]; cbn [fst snd] in *; try contradiction.
+    - destruct (Hf a n1 eq_refl) as [G1 [G2 [evs2 [G3 G4]]]]. split; [exact G1|split; [lia|]].
+      exists (evs2 ++ evs). split; [rewrite G3, H3, app_assoc; reflexivity|apply Forall_app; split; assumption].
+    - split; [exact I|split; [exact H2|exists evs; split; assumption]].
+  Qed.
+  Lemma MokAt_fail {A} e n : MokAt (@mfail A e) n.
+  Proof. apply MokAt_of, Mok_fail. Qed.
+  Lemma MokAt_ret {A} (a : A) n : MokAt (mret a) n.
+  Proof. apply MokAt_of, Mok_ret. Qed.
+End At.
 
 Lemma safe_idpart (qd : option bytes) (dp : N) :
   safe (match qd with
@@ -349,130 +362,188 @@ Proof.
   destruct qd as [q|]; [|exact I]. cbn zeta. apply safe_obind; [apply safe_need|intros qid].
   destruct (split 46 q) as [|a [|p [|x r]]]; try exact I. apply safe_obind; [apply safe_need|intro; exact I].
 Qed.
-
-Lemma gs1_loop_at : forall fuel received parts expected vals n, (length (n_udp n) < fuel)%nat ->
-  MokAt (gs1_loop fuel received parts expected vals) n.
-Proof.
-  induction fuel as [|f IH]; intros received parts expected vals n Hf; [lia|]. cbn [gs1_loop].
-  apply MokAt_bind; [apply MokAt_of, MokT_udp_recv|]. intros data n1 E1.
-  pose proof (udp_recv_consumes None n data n1 E1) as Hc.
-  pose proof (Rsafe_run _ read_cstr data Rsafe_cstr) as Hs. unfold run_r.
-  destruct (fst (read_cstr (buf_new data))) as [s|e| | |]; cbn in Hs; try contradiction; [|apply MokAt_fail].
-  destruct s as [|c s]; [apply MokAt_fail|].
-  destruct (vm_remove (str "final") (insert_pairs (split 92 (remove_first_char (c :: s))) vals)) as [fin vals1].
-  pose proof (safe_idpart (vm_get (str "queryid") vals1) (lenN parts)) as Hid.
-  match goal with |- MokAt (match ?ip with _ => _ end) _ => destruct ip as [[qid part]|e| | |] end; cbn in Hid; try contradiction; [|apply MokAt_fail].
-  match goal with |- MokAt (if ?c then _ else _) _ => destruct c end; [apply MokAt_fail|].
-  match goal with |- MokAt (if ?c then _ else _) _ => destruct c end; [apply MokAt_fail|].
-  match goal with |- MokAt (if ?c then _ else _) _ => destruct c end; [apply MokAt_ret|].
-  apply IH. lia.
-Qed.
-Lemma gs1_values_ok port : MokT (gs1_values_impl port).
-Proof.
-  apply MokT_of_at. intros n. unfold gs1_values_impl.
-  apply MokAt_bind; [apply MokAt_of, MokT_send|]. intros u n1 E.
-  apply gs1_loop_at. unfold send in E. destruct (existsb _ _); inversion E; subst; cbn; lia.
-Qed.
-Theorem gs1_query_ok port t : settings_ok t -> MokT (gs1_query port t).
-Proof.
-  intros Hs. unfold gs1_query, gs1_query_vars, MokT.
-  apply Mok_bind; [|intros vars; apply Mok_lift, safe_gs1_build].
-  apply Mok_bind; [apply MokT_udp_new; exact Hs|intros _]. apply Mok_retry, gs1_values_ok.
-Qed.
-
-Theorem gs2_query_ok port t : settings_ok t -> MokT (gs2_query port t).
-Proof.
-  intros Hs. unfold gs2_query, gs2_request_impl, MokT.
-  apply Mok_bind; [apply MokT_udp_new; exact Hs|intros _].
-  apply Mok_bind; [|intros d; apply Mok_lift, safe_gs2_parse].
-  apply Mok_retry. apply Mok_bind; [apply MokT_send|intros _]. apply Mok_bind; [apply MokT_udp_recv|intros d].
-  apply Mok_lift. unfold run_r. eapply post_safe with (P := fun _ _ => True).
-  eapply post_bind; [apply post_u8; reflexivity|]. intros k b1 [Hb1 _]. destruct (negb (k =? 0)); [exact I|].
-  eapply post_bind; [apply post_uint; exact Hb1|]. intros sid b2 _. destruct (negb (sid =? 1)); exact I.
-Qed.
-
-(* GameSpy 3 *)
-Lemma gs3_receive_at size kind n :
-  MokAt (gs3_receive size kind) n
-  /\ forall d n', gs3_receive size kind n = (Ok d, n') -> (length (n_udp n') < length (n_udp n))%nat.
-Proof.
-  unfold gs3_receive. split.
-  - apply MokAt_bind; [apply MokAt_of, MokT_udp_recv|]. intros d n1 E. apply MokAt_of, Mok_lift.
-    unfold run_r. eapply post_safe with (P := fun _ _ => True).
-    eapply post_bind; [apply post_u8; reflexivity|]. intros k b1 [Hb1 _]. destruct (negb (k =? kind)); [exact I|].
-    eapply post_bind; [apply post_uint; exact Hb1|]. intros sid b2 [Hb2 _]. destruct (negb (sid =? 1)); [exact I|].
-    cbn. unfold remaining_bytes. rewrite Hb2. exact I.
-  - intros d n' E. unfold mbind in E.
-    destruct (udp_recv _ n) as [[x|e| | |] n1] eqn:E1; try discriminate.
-    apply udp_recv_consumes in E1. unfold mlift in E. inversion E; subst. exact E1.
-Qed.
-Lemma gs3_handshake_ok port : MokT (gs3_handshake port).
-Proof.
-  unfold gs3_handshake, MokT. apply Mok_bind; [apply MokT_send|intros _].
-  apply Mok_bind; [apply MokT_of_at; intro n; apply gs3_receive_at|intros d].
-  apply Mok_bind; [apply Mok_lift, Rsafe_run, Rsafe_cstr|intros s].
-  apply Mok_bind; [apply Mok_lift, safe_need|intros c]. apply Mok_ret.
-Qed.
-Lemma gs3_packets_loop_at : forall fuel values expected n, (length (n_udp n) < fuel)%nat ->
-  MokAt (gs3_packets_loop fuel values expected) n.
-Proof.
-  induction fuel as [|f IH]; intros values expected n Hf; [lia|]. cbn [gs3_packets_loop].
-  apply MokAt_bind; [apply gs3_receive_at|]. intros d n1 E1.
-  pose proof (proj2 (gs3_receive_at None 0 n) d n1 E1) as Hc.
-  match goal with |- MokAt (match ?x with _ => _ end) _ => assert (Hs : safe x) end.
-  { unfold run_r. eapply post_safe with (P := fun _ _ => True).
-    eapply post_bind; [apply post_cstr; reflexivity|]. intros s b1 [Hb1 _]. destruct (negb (bytes_eqb s (str "splitnum"))); [exact I|].
-    eapply post_bind; [apply post_u8; exact Hb1|]. intros id b2 [Hb2 _].
-    eapply post_bind; [apply post_move; exact Hb2|]. intros u b3 Hb3. unfold remaining_bytes. rewrite Hb3. exact I. }
-  match goal with |- MokAt (match ?x with _ => _ end) _ => destruct x as [[id body]|e| | |] end; cbn in Hs; try contradiction; [|apply MokAt_fail].
-  match goal with |- MokAt (if ?c then _ else _) _ => destruct c end; [apply MokAt_ret|]. apply IH. lia.
-Qed.
 Lemma send_keeps_udp port d n u n' : send port d n = (Ok u, n') -> n_udp n' = n_udp n.
 Proof. unfold send. destruct (existsb _ _); intro E; inversion E; reflexivity. Qed.
-Lemma gs3_packets_impl_ok port : MokT (gs3_packets_impl port).
+
+Section Protocols.
+  Variable port : N.
+  Variable reqs : bytes -> Prop.
+  Notation Q := (Qreq port reqs).
+  Notation Mokq := (Mok Q).
+  Lemma Mokq_recv s : Mokq (udp_recv s).
+  Proof. apply Mok_udp_recv. exact I. Qed.
+  Lemma Mokq_send d : reqs d -> Mokq (send port d).
+  Proof. intros H. apply Mok_send. split; [reflexivity|exact H]. Qed.
+  Lemma Mokq_udp_new t : settings_ok t -> Mokq (udp_new port t).
+  Proof. intros H. apply Mok_udp_new; [exact H|exact I|intros; exact I]. Qed.
+
+  (* GameSpy 1 *)
+  Lemma gs1_loop_at : forall fuel received parts expected vals n, (length (n_udp n) < fuel)%nat ->
+    MokAt Q (gs1_loop fuel received parts expected vals) n.
+  Proof.
+    induction fuel as [|f IH]; intros received parts expected vals n Hf; [lia|]. cbn [gs1_loop].
+    apply MokAt_bind; [apply MokAt_of, Mokq_recv|]. intros data n1 E1.
+    pose proof (udp_recv_consumes None n data n1 E1) as Hc.
+    pose proof (Rsafe_run _ read_cstr data Rsafe_cstr) as Hs. unfold run_r.
+    destruct (fst (read_cstr (buf_new data))) as [s|e| | |]; cbn in Hs; try contradiction; [|apply MokAt_fail].
+    destruct s as [|c s]; [apply MokAt_fail|].
+    destruct (vm_remove (str "final") (insert_pairs (split 92 (remove_first_char (c :: s))) vals)) as [fin vals1].
+    pose proof (safe_idpart (vm_get (str "queryid") vals1) (lenN parts)) as Hid.
+    match goal with |- MokAt _ (match ?ip with _ => _ end) _ => destruct ip as [[qid part]|e| | |] end; cbn in Hid; try contradiction; [|apply MokAt_fail].
+    match goal with |- MokAt _ (if ?c then _ else _) _ => destruct c end; [apply MokAt_fail|].
+    match goal with |- MokAt _ (if ?c then _ else _) _ => destruct c end; [apply MokAt_fail|].
+    match goal with |- MokAt _ (if ?c then _ else _) _ => destruct c end; [apply MokAt_ret|].
+    apply IH. lia.
+  Qed.
+  Lemma gs1_values_ok : reqs gs1_request -> Mokq (gs1_values_impl port).
+  Proof.
+    intros Hr. apply Mok_of_at. intros n. unfold gs1_values_impl.
+    apply MokAt_bind; [apply MokAt_of, Mokq_send, Hr|]. intros u n1 E.
+    apply gs1_loop_at. apply send_keeps_udp in E. rewrite E. lia.
+  Qed.
+  Theorem gs1_query_okq t : reqs gs1_request -> settings_ok t -> Mokq (gs1_query port t).
+  Proof.
+    intros Hr Hs. unfold gs1_query, gs1_query_vars.
+    apply Mok_bind; [|intros vars; apply Mok_lift, safe_gs1_build].
+    apply Mok_bind; [apply Mokq_udp_new; exact Hs|intros _]. apply Mok_retry, gs1_values_ok, Hr.
+  Qed.
+
+  (* GameSpy 2 *)
+  Theorem gs2_query_okq t : reqs gs2_request -> settings_ok t -> Mokq (gs2_query port t).
+  Proof.
+    intros Hr Hs. unfold gs2_query, gs2_request_impl.
+    apply Mok_bind; [apply Mokq_udp_new; exact Hs|intros _].
+    apply Mok_bind; [|intros d; apply Mok_lift, safe_gs2_parse].
+    apply Mok_retry. apply Mok_bind; [apply Mokq_send, Hr|intros _]. apply Mok_bind; [apply Mokq_recv|intros d].
+    apply Mok_lift. unfold run_r. eapply post_safe with (P := fun _ _ => True).
+    eapply post_bind; [apply post_u8; reflexivity|]. intros k b1 [Hb1 _]. destruct (negb (k =? 0)); [exact I|].
+    eapply post_bind; [apply post_uint; exact Hb1|]. intros sid b2 _. destruct (negb (sid =? 1)); exact I.
+  Qed.
+
+  (* GameSpy 3 *)
+  Lemma gs3_receive_at size kind n :
+    MokAt Q (gs3_receive size kind) n
+    /\ forall d n', gs3_receive size kind n = (Ok d, n') -> (length (n_udp n') < length (n_udp n))%nat.
+  Proof.
+    unfold gs3_receive. split.
+    - apply MokAt_bind; [apply MokAt_of, Mokq_recv|]. intros d n1 E. apply MokAt_of, Mok_lift.
+      unfold run_r. eapply post_safe with (P := fun _ _ => True).
+      eapply post_bind; [apply post_u8; reflexivity|]. intros k b1 [Hb1 _]. destruct (negb (k =? kind)); [exact I|].
+      eapply post_bind; [apply post_uint; exact Hb1|]. intros sid b2 [Hb2 _]. destruct (negb (sid =? 1)); [exact I|].
+      cbn. unfold remaining_bytes. rewrite Hb2. exact I.
+    - intros d n' E. unfold mbind in E.
+      destruct (udp_recv _ n) as [[x|e| | |] n1] eqn:E1; try discriminate.
+      apply udp_recv_consumes in E1. unfold mlift in E. inversion E; subst. exact E1.
+  Qed.
+  Definition gs3_handshake_request : bytes := [254; 253; 9; 0; 0; 0; 1].
+  Definition gs3_data_request_bytes (payload : bytes) (c : option Z) : bytes :=
+    [254; 253; 0; 0; 0; 0; 1] ++ (match c with Some z => be_bytes 4 (of_signed 32 z) | None => [] end) ++ payload.
+  Lemma gs3_handshake_ok : reqs gs3_handshake_request -> Mokq (gs3_handshake port).
+  Proof.
+    intros Hr. unfold gs3_handshake. apply Mok_bind; [apply Mokq_send, Hr|intros _].
+    apply Mok_bind; [apply Mok_of_at; intro n; apply gs3_receive_at|intros d].
+    apply Mok_bind; [apply Mok_lift, Rsafe_run, Rsafe_cstr|intros s].
+    apply Mok_bind; [apply Mok_lift, safe_need|intros c]. apply Mok_ret.
+  Qed.
+  Lemma gs3_packets_loop_at : forall fuel values expected n, (length (n_udp n) < fuel)%nat ->
+    MokAt Q (gs3_packets_loop fuel values expected) n.
+  Proof.
+    induction fuel as [|f IH]; intros values expected n Hf; [lia|]. cbn [gs3_packets_loop].
+    apply MokAt_bind; [apply gs3_receive_at|]. intros d n1 E1.
+    pose proof (proj2 (gs3_receive_at None 0 n) d n1 E1) as Hc.
+    match goal with |- MokAt _ (match ?x with _ => _ end) _ => assert (Hs : safe x) end.
+    { unfold run_r. eapply post_safe with (P := fun _ _ => True).
+      eapply post_bind; [apply post_cstr; reflexivity|]. intros s b1 [Hb1 _]. destruct (negb (bytes_eqb s (str "splitnum"))); [exact I|].
+      eapply post_bind; [apply post_u8; exact Hb1|]. intros id b2 [Hb2 _].
+      eapply post_bind; [apply post_move; exact Hb2|]. intros u b3 Hb3. unfold remaining_bytes. rewrite Hb3. exact I. }
+    match goal with |- MokAt _ (match ?x with _ => _ end) _ => destruct x as [[id body]|e| | |] end; cbn in Hs; try contradiction; [|apply MokAt_fail].
+    match goal with |- MokAt _ (if ?c then _ else _) _ => destruct c end; [apply MokAt_ret|]. apply IH. lia.
+  Qed.
+  (* the request language of GameSpy 3 with a given payload: the handshake, or the data request
+     carrying some challenge *)
+  Definition gs3_language (payload : bytes) (d : bytes) : Prop :=
+    d = gs3_handshake_request \/ exists c, d = gs3_data_request_bytes payload c.
+  Lemma gs3_packets_impl_ok : (forall d, gs3_language [255; 255; 255; 1] d -> reqs d) -> Mokq (gs3_packets_impl port).
+  Proof.
+    intros Hr. apply Mok_of_at. intros n. unfold gs3_packets_impl.
+    assert (Hh : Mokq (gs3_handshake port)) by (apply gs3_handshake_ok, Hr; left; reflexivity).
+    apply MokAt_bind; [apply MokAt_of, Hh|]. intros c n1 E1.
+    pose proof (Hh n) as [_ [L1 _]]. rewrite E1 in L1. cbn [snd] in L1.
+    apply MokAt_bind; [apply MokAt_of; unfold gs3_data_request; apply Mokq_send, Hr; right; exists c; reflexivity|]. intros u n2 E2.
+    apply send_keeps_udp in E2.
+    apply MokAt_bind; [apply gs3_packets_loop_at; rewrite E2; lia|]. intros vs n3 _.
+    match goal with |- MokAt _ (if ?c then _ else _) _ => destruct c end; [apply MokAt_fail|apply MokAt_ret].
+  Qed.
+  Theorem gs3_query_okq t : (forall d, gs3_language [255; 255; 255; 1] d -> reqs d) -> settings_ok t -> Mokq (gs3_query port t).
+  Proof.
+    intros Hr Hs. unfold gs3_query, gs3_packets.
+    apply Mok_bind; [|intros ps; apply Mok_lift, safe_gs3_build].
+    apply Mok_bind; [apply Mokq_udp_new; exact Hs|intros _]. apply Mok_retry, gs3_packets_impl_ok, Hr.
+  Qed.
+  Theorem gs3_query_vars_okq t : (forall d, gs3_language [255; 255; 255; 1] d -> reqs d) -> settings_ok t -> Mokq (gs3_query_vars port t).
+  Proof.
+    intros Hr Hs. unfold gs3_query_vars, gs3_packets.
+    apply Mok_bind; [apply Mok_bind; [apply Mokq_udp_new; exact Hs|intros _; apply Mok_retry, gs3_packets_impl_ok, Hr]|intros ps].
+    apply Mok_lift. apply safe_obind; [apply safe_need|intros first].
+    apply safe_obind; [apply safe_data_to_map|intros [m r]]. exact I.
+  Qed.
+
+  Theorem jc2m_query_okq t : (forall d, gs3_language [255; 255; 255; 2] d -> reqs d) -> settings_ok t -> Mokq (jc2m_query port t).
+  Proof.
+    intros Hr Hs. unfold jc2m_query, jc2m_packets_impl.
+    apply Mok_bind; [apply Mokq_udp_new; exact Hs|intros _].
+    apply Mok_bind; [|intros d; apply Mok_lift, safe_jc2m_build].
+    apply Mok_retry. apply Mok_bind; [apply gs3_handshake_ok, Hr; left; reflexivity|intros c].
+    apply Mok_bind; [unfold gs3_data_request; apply Mokq_send, Hr; right; exists c; reflexivity|intros _].
+    apply Mok_bind; [apply Mok_of_at; intro n; apply gs3_receive_at|intros d].
+    apply Mok_lift. unfold run_r. eapply post_safe with (P := fun _ _ => True).
+    eapply post_bind; [apply post_move; reflexivity|]. intros u b1 Hb1. cbn. unfold remaining_bytes. rewrite Hb1. exact I.
+  Qed.
+End Protocols.
+
+(* the trace of a query that only writes Qreq events *)
+Lemma Qreq_sends port reqs evs : Forall (Qreq port reqs) evs -> forall p d, In (SendEv p d) evs -> p = port /\ reqs d.
+Proof. intros H p d Hin. rewrite Forall_forall in H. exact (H _ Hin). Qed.
+Lemma Qreq_no_reserve port reqs evs : Forall (Qreq port reqs) evs ->
+  flat_map (fun e => match e with Reserve k => [k] | _ => [] end) evs = [] /\ (forall p c, ~ In (NewTcp p c) evs).
 Proof.
-  apply MokT_of_at. intros n. unfold gs3_packets_impl.
-  apply MokAt_bind; [apply MokAt_of, gs3_handshake_ok|]. intros c n1 E1.
-  pose proof (gs3_handshake_ok port n) as [_ [L1 _]]. rewrite E1 in L1. cbn [snd] in L1.
-  apply MokAt_bind; [apply MokAt_of; unfold gs3_data_request; apply MokT_send|]. intros u n2 E2.
-  apply send_keeps_udp in E2.
-  apply MokAt_bind; [apply gs3_packets_loop_at; rewrite E2; lia|]. intros vs n3 _.
-  match goal with |- MokAt (if ?c then _ else _) _ => destruct c end; [apply MokAt_fail|apply MokAt_ret].
+  intros H. split.
+  - induction H as [|e evs He Hevs IH]; [reflexivity|]. cbn [flat_map]. rewrite IH. destruct e; cbn in He |- *; first [reflexivity|contradiction].
+  - intros p c Hin. rewrite Forall_forall in H. exact (H _ Hin).
 Qed.
-Theorem gs3_query_ok port t : settings_ok t -> MokT (gs3_query port t).
+(* what a query over Qreq guarantees from the initial state: totality, the request language, no reservation, no TCP *)
+Definition udp_query_contract {A} (q : M A) (port : N) (reqs : bytes -> Prop) : Prop :=
+  forall u tc sf,
+    safe (fst (q (net_init u tc sf)))
+    /\ (forall p d, In (SendEv p d) (n_trace (snd (q (net_init u tc sf)))) -> p = port /\ reqs d)
+    /\ reserves (snd (q (net_init u tc sf))) = []
+    /\ (forall p c, ~ In (NewTcp p c) (n_trace (snd (q (net_init u tc sf))))).
+Lemma contract_of_mok {A} (q : M A) port reqs : Mok (Qreq port reqs) q -> udp_query_contract q port reqs.
 Proof.
-  intros Hs. unfold gs3_query, gs3_packets, MokT.
-  apply Mok_bind; [|intros ps; apply Mok_lift, safe_gs3_build].
-  apply Mok_bind; [apply MokT_udp_new; exact Hs|intros _]. apply Mok_retry, gs3_packets_impl_ok.
-Qed.
-Theorem gs3_query_vars_ok port t : settings_ok t -> MokT (gs3_query_vars port t).
-Proof.
-  intros Hs. unfold gs3_query_vars, gs3_packets, MokT.
-  apply Mok_bind; [apply Mok_bind; [apply MokT_udp_new; exact Hs|intros _; apply Mok_retry, gs3_packets_impl_ok]|intros ps].
-  apply Mok_lift. apply safe_obind; [apply safe_need|intros first].
-  apply safe_obind; [apply safe_data_to_map|intros [m r]]. exact I.
+  intros H u tc sf. destruct (H (net_init u tc sf)) as [H1 [_ [evs [H3 H4]]]].
+  cbn [net_init n_trace] in H3. rewrite app_nil_r in H3.
+  split; [exact H1|]. unfold reserves. rewrite H3. split; [exact (Qreq_sends port reqs evs H4)|exact (Qreq_no_reserve port reqs evs H4)].
 Qed.
 
-Theorem jc2m_query_ok port t : settings_ok t -> MokT (jc2m_query port t).
-Proof.
-  intros Hs. unfold jc2m_query, jc2m_packets_impl, MokT.
-  apply Mok_bind; [apply MokT_udp_new; exact Hs|intros _].
-  apply Mok_bind; [|intros d; apply Mok_lift, safe_jc2m_build].
-  apply Mok_retry. apply Mok_bind; [apply gs3_handshake_ok|intros c].
-  apply Mok_bind; [unfold gs3_data_request; apply MokT_send|intros _].
-  apply Mok_bind; [apply MokT_of_at; intro n; apply gs3_receive_at|intros d].
-  apply Mok_lift. unfold run_r. eapply post_safe with (P := fun _ _ => True).
-  eapply post_bind; [apply post_move; reflexivity|]. intros u b1 Hb1. cbn. unfold remaining_bytes. rewrite Hb1. exact I.
-Qed.
+Theorem gamespy1_contract port t : settings_ok t -> udp_query_contract (gs1_query port t) port (fun d => d = gs1_request).
+Proof. intros H. apply contract_of_mok, gs1_query_okq; [reflexivity|exact H]. Qed.
+Theorem gamespy2_contract port t : settings_ok t -> udp_query_contract (gs2_query port t) port (fun d => d = gs2_request).
+Proof. intros H. apply contract_of_mok, gs2_query_okq; [reflexivity|exact H]. Qed.
+Theorem gamespy3_contract port t : settings_ok t -> udp_query_contract (gs3_query port t) port (gs3_language [255; 255; 255; 1]).
+Proof. intros H. apply contract_of_mok, gs3_query_okq; [auto|exact H]. Qed.
+Theorem gamespy3_vars_contract port t : settings_ok t -> udp_query_contract (gs3_query_vars port t) port (gs3_language [255; 255; 255; 1]).
+Proof. intros H. apply contract_of_mok, gs3_query_vars_okq; [auto|exact H]. Qed.
+Theorem jc2m_contract port t : settings_ok t -> udp_query_contract (jc2m_query port t) port (gs3_language [255; 255; 255; 2]).
+Proof. intros H. apply contract_of_mok, jc2m_query_okq; [auto|exact H]. Qed.
 
 (* ---------- the C01 rows ---------- *)
 Theorem gamespy1_total port t u tc sf : settings_ok t -> safe (fst (gs1_query port t (net_init u tc sf))).
-Proof. intros H. exact (proj1 (gs1_query_ok port t H (net_init u tc sf))). Qed.
+Proof. intros H. exact (proj1 (gamespy1_contract port t H u tc sf)). Qed.
 Theorem gamespy2_total port t u tc sf : settings_ok t -> safe (fst (gs2_query port t (net_init u tc sf))).
-Proof. intros H. exact (proj1 (gs2_query_ok port t H (net_init u tc sf))). Qed.
+Proof. intros H. exact (proj1 (gamespy2_contract port t H u tc sf)). Qed.
 Theorem gamespy3_total port t u tc sf : settings_ok t -> safe (fst (gs3_query port t (net_init u tc sf))).
-Proof. intros H. exact (proj1 (gs3_query_ok port t H (net_init u tc sf))). Qed.
+Proof. intros H. exact (proj1 (gamespy3_contract port t H u tc sf)). Qed.
 Theorem gamespy3_vars_total port t u tc sf : settings_ok t -> safe (fst (gs3_query_vars port t (net_init u tc sf))).
-Proof. intros H. exact (proj1 (gs3_query_vars_ok port t H (net_init u tc sf))). Qed.
+Proof. intros H. exact (proj1 (gamespy3_vars_contract port t H u tc sf)). Qed.
 Theorem jc2m_total port t u tc sf : settings_ok t -> safe (fst (jc2m_query port t (net_init u tc sf))).
-Proof. intros H. exact (proj1 (jc2m_query_ok port t H (net_init u tc sf))). Qed.
+Proof. intros H. exact (proj1 (jc2m_contract port t H u tc sf)). Qed.
